@@ -1176,3 +1176,21 @@ M("c08-arrow-this-not-captured", ["C08"], VM,
 M("c08-arrow-not-marked", ["C08"], CO,
   "            is_arrow=True,\n", "",
   [("C08", "C08-R18", "arrow:marked")], note="arrow code objects no longer marked")
+
+# ---- wave 13 --------------------------------------------------------------------------------------------
+S("seed-C03-g", ["C02", "C05"], "seeded/C03-g/patch.diff", [("C02", "C02-R6", "finally-rethrow"), ("C05", "C05-R3", "finally-rethrow")], note="the extract-method slip of C02-e/C02-f by a third author (written against C03: the leaked operand is a host iterator object)")
+S("seed-C05-h", ["C05"], "seeded/C05-h/patch.diff", [("C05", "C05-R4b", "SwitchCase")], note="var collection restricted to a table of compound statements that lacks SwitchCase (second author, the slip of C05-e)")
+TP("t-var-decls-compound-only", ALL_PROPS, "selftest/patches/t-var-decls-compound-only.diff", note="the same table with SwitchCase (repaired C05-h)")
+S("seed-C07-h", ["C07", "C02", "C05"], "seeded/C07-h/patch.diff", [("C07", "C07-R4b", "finally-scope"), ("C02", "C02-R6", "crossing"), ("C05", "C05-R3", "crossing")], note="the jump target looked up with list.index: contexts are dataclasses, an enclosing loop with equal fields is found first")
+TP("t-leave-contexts-slice", ALL_PROPS, "selftest/patches/t-leave-contexts-slice.diff", note="the same slice-based leave code with the target found by identity (repaired C07-h)")
+S("seed-C08-g", ["C08"], "seeded/C08-g/patch.diff", [("C08", "C08-R19", "delete")], note="delete loops over the three dictionaries and returns at the first that holds the key: the setter of a get/set pair survives", silent=("C03",))
+TP("t-own-property-helper", ALL_PROPS, "selftest/patches/t-own-property-helper.diff", note="the same has_own helper and loop, clearing every dictionary (repaired C08-g)")
+S("seed-C10-g", ["C10"], "seeded/C10-g/patch.diff", [("C10", "C10-R11", "_run_lookbehind")], note="one step budget per attempt kept on the matcher; the lookbehind saves and refills it and restores it on one of its two exits")
+TP("t-regex-budget-per-attempt", ALL_PROPS, "selftest/patches/t-regex-budget-per-attempt.diff", note="the same budget restored on both exits (repaired C10-g)")
+S("seed-C12-g", ["C12"], "seeded/C12-g/patch.diff", [("C12", "C12-R7", "_make_array_method")], note="the array method table built once per array by a renamed builder and kept on the array (second author, the slip of C12-f)", silent=("C17",))
+S("seed-C17-g", ["C17"], "seeded/C17-g/patch.diff", [("C17", "C17-R15", "set_fn")], note="TypedArray.set streams the source through a generator unless a memmove rule says otherwise; the rule ignores element widths")
+TP("t-typed-set-streams-foreign-sources", ALL_PROPS, "selftest/patches/t-typed-set-streams-foreign-sources.diff", note="streaming kept for sources that share no memory with the receiver (repaired C17-g)")
+S("seed-C19-g", ["C19", "C11"], "seeded/C19-g/patch.diff", [("C19", "C19-R9", "_to_js"), ("C11", "C11-R10", "_to_js")], note="host dict members stored through the object-literal initialiser, for which __proto__ is special", silent=("C01",))
+TP("t-literal-member-initialiser", ALL_PROPS, "selftest/patches/t-literal-member-initialiser.diff", note="the initialiser kept for literals, members of converted dicts stored with set (repaired C19-g)")
+S("seed-C20-g", ["C20"], "seeded/C20-g/patch.diff", [("C20", "C20-R12", "match_all")], note="match_all on one matcher; the step over an empty match is taken from the search start, not from the match")
+TP("t-match-all-one-vm", ALL_PROPS, "selftest/patches/t-match-all-one-vm.diff", note="the same single-matcher scan stepping from the match (repaired C20-g)")
